@@ -159,6 +159,17 @@ def snip_import(rng, uid):
     return src, len(mods)
 
 
+def snip_local_require(rng, uid):
+    how = rng.choice(["*", ":as cm%d" % uid, "", "[when unless :as u%d cond]" % uid])
+    where = rng.choice(["defn", "defclass", "lfor"])
+    req = f"(require hy.core.macros {how})"
+    if where == "defn":
+        return f"(defn lr{uid} [x]\n  {req}\n  (when x 1))\n", 3
+    if where == "defclass":
+        return f"(defclass LR{uid} []\n  {req}\n  (setv attr 1))\n", 3
+    return f"(setv lrv{uid} (lfor q (range 2) (do {req} q)))\n", 3
+
+
 def snip_trywith(rng, uid):
     names = pick(rng, 2, 4)
     src = f"(defn tw{uid} []\n  (try\n    (with [" + " ".join(f"{n} (open \"f{i}\")" for i, n in enumerate(names)) + "] [" + " ".join(names) + \
@@ -179,7 +190,7 @@ def snip_misc(rng, uid):
 
 
 SNIPS = [snip_nonlocal, snip_nonlocal, snip_nonlocal, snip_global, snip_comp, snip_comp, snip_let, snip_match, snip_call,
-         snip_class, snip_import, snip_trywith, snip_closure, snip_misc]
+         snip_class, snip_import, snip_local_require, snip_trywith, snip_closure, snip_misc]
 
 
 def gen_program(rng, uid):
